@@ -19,6 +19,7 @@ DOC = {
         'C09.R4': 'visited set consulted only under follow_links; hidden = file name starts with "."; .gitignore consulted unless no_ignore',
         'C09.R5': 'include/exclude path patterns are made absolute with abs_pattern(base_dir, _); name patterns are not',
         'C09.R6': 'visit_dir reads a directory iff level < depth && matches_dir && (!one_fs || same_fs) (reach table over these atoms)',
+        'C09.R12': 'input paths read from the standard input (--stdin) are taken as bytes, like paths given as arguments (OsString): no UTF-8-only reader (lines / read_line / read_to_string / String::from_utf8 + unwrap) between stdin and Path',
         'C09.R11': 'marking an entry as visited (follow_links) does not cut off routes that would get further: the mark is made after the route-dependent .gitignore test, and either it records the nesting level (a directory reached again at a smaller level is read again) or it is made only after the --depth test passed',
         'C09.R10': 'a --regex pattern is never joined with anchors (^...$) or with another pattern (base directory + relative pattern) without a grouping step for a top-level alternation: `^a|b$` means (^a)|(b$), which selects files that are not matched fully and makes the fixed prefix used for pruning the prefix of the first alternative only',
         'C09.R9': 'matches_dir prunes a directory because of an --exclude pattern only through a predicate that holds for the whole subtree: the regex match of the directory path is gated by a test that the pattern source ends with `.*` (`**`); a bare prefix or full match of the directory path is not conservative (`--exclude o` would prune `other/`)',
@@ -44,6 +45,7 @@ def run(ctx):
     r9(ctx)
     r10(ctx)
     r11(ctx)
+    r12(ctx)
     from .common import run_mandatory
     run_mandatory(ctx, 'C09')
 
@@ -162,6 +164,22 @@ def _groups(lib, body, operand):
             if cb is not None and any('(?:' in v for v in _all_consts(cb)):
                 return True
     return False
+
+
+def r12(ctx):
+    rule = 'C09.R12'
+    lib = ctx.lib
+    b = ctx.need_body(rule, 'config::GroupConfig::input_paths')
+    if b is None:
+        return
+    rd = b.calls(r'^std::io::stdin$')
+    if not ctx.floor(rule, 'stdin() in input_paths', len(rd), 1, b.where()):
+        return
+    bodies = [b] + [lib.body(c) for c in lib.closures_of(b.path)]
+    bad = [c for x in bodies for c in x.calls(r'BufRead>::lines$|BufRead::lines$|::read_line$|::read_to_string$|String::from_utf8$|str::from_utf8$|converts::from_utf8$')]
+    ctx.check(not bad, rule, b.path + '|stdin-bytes', (bad[0].where() if bad else rd[0].where()), 'paths from stdin are split as bytes',
+              'paths from stdin pass %s, which accepts UTF-8 only: one file name that is not valid UTF-8 in `find | fclones group --stdin` makes the run fail (the unwrap of the line panics) '
+              'while the same path given as an argument is scanned' % (bad[0].path.rsplit('::', 1)[-1] if bad else ''))
 
 
 def r11(ctx):
